@@ -510,3 +510,65 @@ func c10WriteRacingClose(x *X) {
 func init() {
 	register(&Scenario{Prop: "C10", Name: "c10/write-racing-close", Quick: []Bound{{1, 0}, {2, 0}}, Thorough: []Bound{{3, 0}}, Body: c10WriteRacingClose, BudgetQ: 25})
 }
+
+// after a server-side stream write that could not be encoded (the client has received that
+// message's error on the stream), the stream is still a stream: a reader blocked on it returns when
+// the connection is lost or closed, later operations return at once, and the handler ends.
+func c10LossAfterBad(x *X) {
+	mode := x.Choose(2)
+	end := x.Choose(3) // Conn.Close / the peer's socket dies / the server closes
+	so := srvOpts{bufSize: 64, codec: rejectBytesCodec}
+	if mode == 1 {
+		so.pipelining = true
+	}
+	f := newFixture(so, cliOpts{bufSize: 64})
+	f.w.badPush = true
+	st, err := f.conn.NewStream("StreamSvc.Push")
+	if err != nil {
+		x.Fail("C10/open-failed/loss-after-unencodable-message", "NewStream: %v", err)
+		return
+	}
+	m := append([]byte{0xBD}, streamMsg(0x31, 0)...)
+	st.WriteMessage(&m)
+	var back []byte
+	st.ReadMessage(nil, &back)
+	vs.Quiesce()
+	rdDone := false
+	var rdErr error
+	vs.GoNamed("reader", func() { var b []byte; rdErr = st.ReadMessage(nil, &b); rdDone = true })
+	vs.QuiesceKeep()
+	switch end {
+	case 0:
+		vs.GoNamed("closer", func() { f.conn.Close() })
+	case 1:
+		f.cl.Kill()
+	case 2:
+		vs.GoNamed("closer", func() { f.sv.Close() })
+	}
+	vs.Quiesce()
+	how := []string{"Conn.Close", "link died", "server closed the connection"}[end]
+	if !rdDone {
+		x.Fail("C10/client-reader-blocked/loss-after-unencodable-message", "a server-side stream write had failed to encode earlier; the connection then ended (%s): the client's blocked ReadMessage did not return", how)
+	} else if rdErr == nil {
+		x.Fail("C10/reader-outcome/loss-after-unencodable-message", "the blocked ReadMessage returned no error after the connection ended (%s)", how)
+	}
+	werr := error(nil)
+	wdone := false
+	vs.GoNamed("writer", func() { mm := streamMsg(0x31, 1); werr = st.WriteMessage(&mm); wdone = true })
+	vs.Quiesce()
+	if !wdone {
+		x.Fail("C10/later-op-blocked/loss-after-unencodable-message", "a WriteMessage after the connection ended (%s) blocks", how)
+	} else if werr == nil {
+		x.Fail("C10/later-op-outcome/loss-after-unencodable-message", "a WriteMessage after the connection ended (%s) returned nil, want ErrStreamShutdown", how)
+	}
+	if f.w.streamsEx != f.w.streamsIn {
+		x.Fail("C10/handler-blocked/loss-after-unencodable-message", "%d stream handlers entered, %d returned after the connection ended (%s)", f.w.streamsIn, f.w.streamsEx, how)
+	}
+	x.Outcome("mode=%d end=%d rd=%v/%v", mode, end, rdDone, rdErr)
+	f.conn.Close()
+	vs.Quiesce()
+}
+
+func init() {
+	register(&Scenario{Prop: "C10", Name: "c10/connection-loss-after-unencodable-message", Quick: []Bound{{0, 0}, {1, 0}}, Thorough: []Bound{{2, 0}}, Body: c10LossAfterBad, BudgetQ: 15})
+}
